@@ -3,6 +3,10 @@
 # /verif/seeded/<ID>-<k>/ (patch.diff, demo/, meta.json) and writes seeded/INDEX.md.
 import json, os, re, shutil, glob
 rows=[]
+# changes that were confirmed as patches but judged not to break the property as stated (DESIGN.md §8.3)
+DISPOSITION={
+ 'C08r4-3': 'outside the property as stated - needs Read on an object that already holds another pack, which the unchanged tree does not support either (DESIGN.md 8.3)',
+}
 for res in sorted(glob.glob('/verif/work/seedres/*.txt')):
     name=os.path.basename(res)[:-4]; pid,k=name.split('-')
     src='/tmp/seed-%s'%pid
@@ -49,9 +53,14 @@ for res in sorted(glob.glob('/verif/work/seedres/*.txt')):
            'checks_run':oc,'history':old.get('history',[])}
         json.dump(m,open(dst+'/meta.json','w'),indent=1,ensure_ascii=False)
         caught=[c for c,v in oc.items() if v['exit']==1]
-        rows.append((name,m['title'],m['needs_to_manifest'],', '.join('%s: %s'%(c,'; '.join(oc[c]['violation_keys'][:3]) or 'exit %s'%oc[c]['exit']) for c in oc), 'caught by '+', '.join(caught) if caught else 'MISSED'))
+        outcome='caught by '+', '.join(caught) if caught else 'MISSED'
+        if name in DISPOSITION and not caught:
+            outcome='not counted: '+DISPOSITION[name]
+            m['disposition']=DISPOSITION[name]
+            json.dump(m,open(dst+'/meta.json','w'),indent=1,ensure_ascii=False)
+        rows.append((name,m['title'],m['needs_to_manifest'],', '.join('%s: %s'%(c,'; '.join(oc[c]['violation_keys'][:3]) or 'exit %s'%oc[c]['exit']) for c in oc), outcome))
 with open('/verif/seeded/INDEX.md','w') as f:
     f.write('# Seeded changes (independent mutation rounds)\n\nEach directory: patch.diff (apply with `git -C /repo apply`), demo/ (fails with the change, passes without), meta.json.\n\n| id | change | needs to manifest | checks run (first keys) | outcome |\n|---|---|---|---|---|\n')
     for r in rows:
         f.write('| %s | %s | %s | %s | %s |\n'%tuple(str(x).replace('|','\\|').replace('\n',' ')[:300] for x in r))
-print(len(rows),'seeded changes;', sum(1 for r in rows if r[4]=='MISSED'),'missed')
+print(len(rows),'seeded changes;', sum(1 for r in rows if r[4]=='MISSED'),'missed;', sum(1 for r in rows if r[4].startswith('not counted')),'not counted')
